@@ -66,10 +66,19 @@ def run_case(case, rng):
             bs = kwargs.get("belief_set", args[1] if len(args) > 1 else None)
             captured.append(dict(belief_set=np.array(bs, copy=True), alphas=np.array(out["alpha_vectors"], copy=True),
                                  iterations=int(out["iterations"])))
+    pbvi = PointBasedValueIteration(min_belief_expansions=minexp, max_belief_expansions=minexp + 2,
+                                    value_convergence_epsilon=eps, horizon=horizon)
+    if rng.random() < 0.3:
+        # the same planner object first solves a same-size problem with much larger values
+        import copy
+        sib = copy.deepcopy(sp)
+        for k_ in sib.R:
+            sib.R[k_] = abs(sib.R[k_]) * 20.0 + 50.0
+        sib_pomdp = Bd.build_pomdp(sib, explicit=True)
+        case.call("PBVI.plan_on(sibling first)", pbvi.plan_on, sib_pomdp, facts=facts)
+        case.count("planner_reused")
     with wrap(pbvi_mod, "point_based_value_iteration", after=after) as w:
-        res = case.call("PBVI.plan_on", PointBasedValueIteration(min_belief_expansions=minexp, max_belief_expansions=minexp + 2,
-                                                                 value_convergence_epsilon=eps, horizon=horizon).plan_on,
-                        pomdp, facts=facts)
+        res = case.call("PBVI.plan_on", pbvi.plan_on, pomdp, facts=facts)
     case.count("pbvi_calls")
     case.count("inner_pbvi_calls_captured", len(captured))
     stoch = any(len(sp.succ(s, a)) >= 2 for s in S for a in A) or any(sum(p > 0 for _, p in l) >= 2 for l in sp.O.values())
